@@ -524,6 +524,46 @@ func TestC06_JWT(t *testing.T) {
 		if strings.Count(tok, ".") != 2 || tok2 == "" {
 			rt.Fatalf("VERIF-INFRA: no JWT access token: %q", tok)
 		}
+		// freshly minted tokens never repeat: neither across grants nor along one grant's refresh chain, even when
+		// everything happens within the same second (deterministic signature: equal claims would give equal tokens)
+		{
+			seenTok, seenJTI := map[string]string{}, map[string]string{}
+			note := func(what, at string) {
+				if at == "" {
+					return
+				}
+				if prev, dup := seenTok[at]; dup {
+					h.Violate(rt, "C06/mint/repeat", "JWT access token of %s equals the one of %s", what, prev)
+				}
+				seenTok[at] = what
+				if _, cl, err := h.DecodeJWT(at); err == nil {
+					if j, _ := cl["jti"].(string); j != "" {
+						if prev, dup := seenJTI[j]; dup {
+							h.Violate(rt, "C06/mint/repeat", "JWT access token of %s carries the jti of %s (%s)", what, prev, j)
+						}
+						seenJTI[j] = what
+					}
+				}
+			}
+			note("grant 1", tok)
+			note("grant 2", tok2)
+			sess := h.NewSess("")
+			tr := w.Token(url.Values{"grant_type": {"password"}, "username": {"peter"}, "password": {"pw"}, "scope": {"offline a"}}, w.BasicFor("A"), h.TokenOpts{Session: sess})
+			note("grant 3", tr.Access)
+			rtk := tr.Refresh
+			for i := 1; i <= rapid.IntRange(1, 3).Draw(rt, "refreshes") && rtk != ""; i++ {
+				if rapid.IntRange(0, 3).Draw(rt, "advanceBetween") == 0 {
+					h.Advance(time.Second)
+				}
+				r2 := w.Token(url.Values{"grant_type": {"refresh_token"}, "refresh_token": {rtk}}, w.BasicFor("A"), h.TokenOpts{})
+				note(fmt.Sprintf("refresh %d of grant 3", i), r2.Access)
+				rtk = r2.Refresh
+			}
+			// the same session object handed to a second grant by the integrator
+			tr4 := w.Token(url.Values{"grant_type": {"password"}, "username": {"peter"}, "password": {"pw"}, "scope": {"a"}}, w.BasicFor("A"), h.TokenOpts{Session: sess})
+			note("grant 4 (session object of grant 3 reused)", tr4.Access)
+			h.Label("jwt/mint-chain")
+		}
 		// stateless validator over the same key
 		currentKey := 0
 		keyGetter := func(context.Context) (interface{}, error) { return h.RSAKey(currentKey), nil }
